@@ -131,3 +131,22 @@ CHECKS["C11"] = dict(
              reach=["end", "succed", "nack", "ack-timeout", "unlock-waiting", "lock-waiting", "rolled-back"]),
     ],
 )
+
+CHECKS["C09"] = dict(
+    explanation="bounded symbolic execution of the real ReplicationBufferQueue (Push / ResetQueueItems / InitFreeQueueItems / Search / Pop / AddPoll) under every program of pushes and pops of the stated length",
+    assumptions=["single consumer, single-threaded; the consumer marks a record as sent (pollIndex++) right after a successful Pop, as ReplicationServer.SendProcess does"],
+    harnesses=[
+        dict(pkg="server", name="C09_ring", bound="ring of 2 records that may grow to 4 or not; 1..2 initial records, resume position any of them (Search), consumer registered (AddPoll) or not; every program of 6 operations from {Push with/without value, Pop}", flags=["-witness", "500"], reach=["end", "popped", "drained", "out-of-buf"]),
+    ],
+)
+
+CHECKS["C12"] = dict(
+    explanation="bounded symbolic execution of the real acceptor rules (ArbiterMember.DoSelfProposal / DoSelfCommit, ArbiterManager.CompareAofId / GetCurrentAofID) on a 3-member manager with symbolic 64-bit proposal numbers and symbolic 16-byte log positions",
+    assumptions=["messages are deliveries of (number, host, log position) to one acceptor; loss and duplication are choices of the delivery sequence"],
+    harnesses=[
+        dict(pkg="server", name="C12_acceptor", bound="arbitrary voter state (proposalId, commitId, pending commit or not), symbolic log positions of all 3 members, leader online or not, proposed member offline or not; one proposal or commit with symbolic number, host in {A,B,C,unknown}, symbolic log position", flags=["-witness", "10", "-timeout", "5000"], reach=["end", "proposal-accepted", "commit-accepted"]),
+        dict(pkg="server", name="C12_single", bound="two candidacies with different symbolic numbers, every sequence of 5 deliveries from {proposal 1, commit 1, proposal 2, commit 2}, from any initial accepted/committed numbers", flags=["-witness", "500", "-timeout", "5000"], reach=["end", "one-commit"]),
+        dict(pkg="server", name="C12_restart", bound="candidacy 1 proposal+commit accepted, restart from saved metadata, candidacy 2 proposal+commit", flags=["-witness", "1"], reach=[]),
+        dict(pkg="server", name="C12_compare", bound="all pairs of 16-byte log positions", flags=["-witness", "1", "-timeout", "5000"], reach=["end"]),
+    ],
+)
